@@ -926,10 +926,11 @@ func c07Scenarios() []*c07Scn {
 	// qd (delay bounding: every non-default scheduling decision costs 1) in the quick tier and, in
 	// the thorough tier, t2 plus a delay-bounded twin "<name>~delay" with a deeper budget (td).
 	q := explore.Bounds{P: 2, E: 1, FreeSwitch: true}
-	qd := explore.Bounds{P: 2, E: 1}
+	qd := explore.Bounds{P: 3, E: 1}
 	t := explore.Bounds{P: 3, E: 2, FreeSwitch: true}
 	t2 := explore.Bounds{P: 2, E: 2, FreeSwitch: true}
-	td := explore.Bounds{P: 4, E: 2}
+	td := explore.Bounds{P: 3, E: 2}
+	td4 := explore.Bounds{P: 4, E: 2}
 	return []*c07Scn{
 		// reply direction keeps the session alive across the sweep at 3 s; it expires at 4 s
 		{name: "reply-keeps-alive", quick: q, thorough: t,
@@ -945,7 +946,7 @@ func c07Scenarios() []*c07Scn {
 			envs:   [][]c07Step{{c07Dg(1, "x:1"), c07Sl(c07Timeout - c07Eps), c07Dg(1, "x:1")}},
 			checks: []int64{3*s + c07Eps, 5 * s}},
 		// two sessions sharing one destination, replies on both sockets; faults on the send path
-		{name: "two-sessions-one-destination", quick: qd, thorough: t2, twin: td,
+		{name: "two-sessions-one-destination", quick: qd, thorough: t2, twin: td4,
 			envs:   [][]c07Step{{c07Dg(1, "x:1"), c07Dg(2, "x:1"), c07Rp(1)}},
 			checks: []int64{s / 2}},
 		// fragmented datagram (session 1) and a lone first fragment (session 2: never dials, expires silently)
@@ -953,7 +954,7 @@ func c07Scenarios() []*c07Scn {
 			envs:   [][]c07Step{{c07F1(1), c07F1(2), c07F2(1), c07Rp(1)}},
 			checks: []int64{3*s + c07Eps, 7 * s / 2}},
 		// a datagram of the same id arrives exactly when the sweep closes the session's socket
-		{name: "datagram-races-sweep-close", quick: qd, thorough: t2, twin: td,
+		{name: "datagram-races-sweep-close", quick: qd, thorough: t2, twin: td4,
 			envs:   [][]c07Step{{c07Dg(1, "x:1")}, {c07Wc(1), c07Dg(1, "x:1")}},
 			checks: []int64{7 * s / 2}},
 		// the second fragment arrives exactly when the never-dialled session is being expired
@@ -985,8 +986,8 @@ func c07Scenarios() []*c07Scn {
 			envs:   [][]c07Step{{c07Dg(1, "x:1"), c07Sl(s / 2), c07Dg(2, "y:2"), c07Sl(c07Timeout - c07Eps), c07Rp(2), c07Dg(1, "x:1")}},
 			checks: []int64{3*s + c07Eps, 11*s/2 + c07Eps, 6 * s}},
 		{name: "T-races-with-faults", thorough: t2, twin: td, thOnly: true, fDial: true,
-			envs:   [][]c07Step{{c07Dg(1, "x:1"), c07Rp(1), c07F1(2)}, {c07Wc(1), c07Dg(1, "x:1"), c07F2(2)}},
-			checks: []int64{7 * s / 2}},
+			envs:   [][]c07Step{{c07Dg(1, "x:1"), c07Re(1)}, {c07Wc(1), c07Dg(1, "x:1"), c07Dg(1, "x:1")}},
+			checks: []int64{s / 2}},
 		{name: "T-fragment-reuse-loss", thorough: t2, twin: td, thOnly: true, racyLoss: true, fWrite: true,
 			envs:   [][]c07Step{{c07F1(1), c07F2(1), c07Rp(1), c07Re(1), c07F1(1), c07F2(1)}},
 			checks: []int64{s}},
